@@ -229,7 +229,11 @@ func cmdCheck(args []string) int {
 
 	violations := 0
 	coreViolation := false // a solver-decided violation in the session/handler code (history search applies)
+	genFailed := map[string]bool{} // functions whose obligations could not be generated (reported once, not once per obligation)
 	violate := func(fn, obl, reason, detail, model, query string, hasInput bool) {
+		if obl == "(generation)" {
+			genFailed[fn] = true
+		}
 		violations++
 		if strings.Contains(fn, "websocket.") || strings.Contains(fn, "models.") || strings.Contains(fn, "modules/vikja.") || strings.Contains(fn, "modules/odal.") {
 			coreViolation = true
@@ -544,14 +548,19 @@ func cmdCheck(args []string) int {
 		os.WriteFile(expPath, []byte(strings.Join(structural, "\n")+"\n"), 0o644)
 	} else if data, err := os.ReadFile(expPath); err == nil {
 		have := map[string]bool{}
+		norm := func(s string) string { return strings.Replace(s, "(*", "(", 1) } // value/pointer receiver changes keep their obligations
 		for _, s := range structural {
 			have[s] = true
+			have[norm(s)] = true
 		}
 		for _, want := range strings.Split(strings.TrimSpace(string(data)), "\n") {
 			if k := strings.Index(want, "#"); k < 0 || !isTracked(want[k+1:]) {
 				continue
 			}
-			if want != "" && !have[want] {
+			if want != "" && !have[want] && !have[norm(want)] {
+				if genFailed[strings.SplitN(want, "#", 2)[0]] {
+					continue // already reported: nothing of this function could be generated
+				}
 				why := "an obligation that is generated on the unchanged tree was not generated"
 				if strings.HasSuffix(want, "#in-subset") {
 					if e.funcs[strings.TrimSuffix(want, "#in-subset")] == nil {
